@@ -773,6 +773,9 @@ func (p *Path) holds(c string) bool {
 // closureBindings describes, in the enclosing function, the values captured
 // by the function literal lit (index = free variable number).
 func closureBindings(lit *ssa.Function) []string {
+	if mc, ok := boundSite[lit]; ok {
+		return []string{describe(mc.Bindings[0])} // the receiver of a method value is what a literal would have captured
+	}
 	parent := lit.Parent()
 	if parent == nil {
 		return nil
@@ -793,6 +796,9 @@ func closureBindings(lit *ssa.Function) []string {
 
 // bindingValues returns the captured values themselves.
 func bindingValues(lit *ssa.Function) []ssa.Value {
+	if mc, ok := boundSite[lit]; ok {
+		return mc.Bindings
+	}
 	parent := lit.Parent()
 	if parent == nil {
 		return nil
